@@ -2,7 +2,16 @@
 //   transp1d gen small N M P SMAX DMAX   exhaustive: 1..N sources, 1..M sinks, positions 0..P, supplies 0..SMAX, demands 0..DMAX
 //                                        (instances with supply > demand get the balanceDemand flag)
 //   transp1d gen rand SEED COUNT         random streams (see gen_rand)
+//   transp1d gen seq SEED COUNT          consecutive problems sharing the position vectors, different zero demands/supplies (TS lines)
+//   transp1d gen seqsmall FULL           (FULL=0: without 2 sources x 3 sinks) exhaustive small TS lines: pairs of zero-demand patterns on positions 0..2
+//   transp1d gen obj SEED COUNT          call sequences on ONE object (TO lines);  gen objsmall FULL: exhaustive small ones
 //   transp1d run < cases
+// case line :  "TS n m k u_1..u_n v_1..v_m (bal s_1..s_n d_1..d_m)*k"   k problems on the same positions, handled one after the other in
+//              this order in the same process and thread, each exactly like a T1 case; result: the k T1 results joined by " || "
+// case line :  "TO n m k u_1..u_n v_1..v_m s_1..s_n d_1..d_m op_1..op_k"   ONE Transportation1d object, the calls op_i in this order:
+//              0 solve(), 1 assign(), 2 balanceDemand(), 3 solve() then assign().  result: k steps joined by " || ", each step
+//              "op # demands before the call # T1-style result with the parts obtained from the ONE object # T1-style result of fresh objects
+//              built from the object's current data" (parts the call does not produce are taken from the fresh objects)
 // case line :  "T1 bal n m u_1..u_n v_1..v_m s_1..s_n d_1..d_m"     (bal=1: call balanceDemand() first)
 // result    :  "D d_1..d_m | S i j a;i j a;... | A a_1..a_n | O optcost"   ("DIED ..." when the worker process died on the case,
 //              "SKIPPED ..." for the rest of the input after 30 deaths / 3000 worker replacements)
@@ -104,6 +113,122 @@ static void gen_rand(unsigned long long seed, long long count) {
   }
 }
 
+
+// ---- TS: consecutive problems on shared positions.  Every problem is in the quantifier's domain (supply <= demand, possibly via bal)
+static void emit_seq(const std::vector<ll> &u, const std::vector<ll> &v, const std::vector<int> &bal,
+                     const std::vector<std::vector<ll>> &ss, const std::vector<std::vector<ll>> &dd) {
+  printf("TS %zu %zu %zu", u.size(), v.size(), ss.size());
+  for (ll x : u) printf(" %lld", x); for (ll x : v) printf(" %lld", x);
+  for (size_t r = 0; r < ss.size(); ++r) { printf(" %d", bal[r]); for (ll x : ss[r]) printf(" %lld", x); for (ll x : dd[r]) printf(" %lld", x); }
+  printf("\n");
+}
+static void gen_seq(unsigned long long seed, long long count) {
+  SplitMix g(seed);
+  for (long long it = 0; it < count; ++it) {
+    int kind = (int)g.uni(0, 9);
+    int n, m; ll range, smax, dmax;
+    if (kind <= 4) { n = g.uni(1, 4); m = g.uni(2, 5); range = g.uni(1, 12); smax = g.uni(1, 3); dmax = g.uni(1, 5); }
+    else if (kind <= 7) { n = g.uni(1, 12); m = g.uni(2, 10); range = g.uni(5, 80); smax = g.uni(1, 9); dmax = g.uni(1, 15); }
+    else { n = g.uni(5, 40); m = g.uni(3, 25); range = g.coin(50) ? 100000000LL : g.uni(10, 1000); smax = g.uni(1, 300); dmax = g.uni(1, 900); }
+    std::vector<ll> u(n), v(m);
+    for (auto &x : u) x = g.uni(0, range); for (auto &x : v) x = g.uni(0, range);
+    if (g.coin(30)) std::sort(v.begin(), v.end());                                       // bins of a row, in order
+    if (g.coin(15)) for (int j = 1; j < m; ++j) if (g.coin(40)) v[j] = v[j - 1];
+    if (g.coin(25)) for (int i = 0; i < n; ++i) u[i] = v[g.uni(0, m - 1)];               // sources on sinks: the hidden sink matters
+    int k = (int)g.uni(2, 4);
+    std::vector<ll> s0(n), d0(m); for (auto &x : s0) x = g.uni(1, smax); for (auto &x : d0) x = g.uni(1, dmax);
+    std::vector<int> bal; std::vector<std::vector<ll>> ss, dd;
+    bool same_amounts = g.coin(50);        // the problems differ ONLY in which demands / supplies are zero
+    for (int r = 0; r < k; ++r) {
+      std::vector<ll> s = s0, d = d0;
+      if (!same_amounts) { for (auto &x : s) x = g.uni(1, smax); for (auto &x : d) x = g.uni(1, dmax); }
+      int zd = (int)g.uni(0, 3) * 20, zs = g.coin(40) ? (int)g.uni(1, 2) * 20 : 0;
+      for (auto &x : d) if (g.coin(zd)) x = 0;
+      for (auto &x : s) if (g.coin(zs)) x = 0;
+      ll ts = 0, td = 0; for (ll x : s) ts += x; for (ll x : d) td += x;
+      int b = 0;
+      if (ts > td) {
+        if (g.coin(30)) b = 1;
+        else { // the missing demand goes to sinks that are already open, or opens one when there is none
+          std::vector<int> open; for (int j = 0; j < m; ++j) if (d[j] > 0) open.push_back(j);
+          if (open.empty()) open.push_back((int)g.uni(0, m - 1));
+          d[open[g.uni(0, (ll)open.size() - 1)]] += ts - td + (g.coin(50) ? g.uni(0, 3) : 0);
+        }
+      }
+      bal.push_back(b); ss.push_back(s); dd.push_back(d);
+    }
+    // ... and the same problems again in the reverse order
+    for (int r = k - 2; r >= 0; --r) { bal.push_back(bal[r]); ss.push_back(ss[r]); dd.push_back(dd[r]); }
+    emit_seq(u, v, bal, ss, dd);
+  }
+}
+// all ordered pairs (A, B) of zero-demand patterns (open sinks have demand 2, >= 1 open) on every position vector in {0..2}^n x {0..2}^m,
+// n = 1..2 sources of supply 1, m = 2..3 sinks: problems A, B, A one after the other
+static void gen_seqsmall(bool full) {
+  for (int n = 1; n <= 2; ++n) for (int m = 2; m <= 3; ++m) {
+    if (!full && n * m == 6) continue;
+    int pu = 1, pv = 1; for (int i = 0; i < n; ++i) pu *= 3; for (int j = 0; j < m; ++j) pv *= 3;
+    for (int cu = 0; cu < pu; ++cu) for (int cv = 0; cv < pv; ++cv) {
+      std::vector<ll> u(n), v(m); int c = cu; for (auto &x : u) { x = c % 3; c /= 3; } c = cv; for (auto &x : v) { x = c % 3; c /= 3; }
+      for (int a = 1; a < (1 << m); ++a) for (int b = 1; b < (1 << m); ++b) {
+        if (a == b) continue;
+        std::vector<ll> s(n, 1), da(m), db(m);
+        for (int j = 0; j < m; ++j) { da[j] = (a >> j & 1) ? 2 : 0; db[j] = (b >> j & 1) ? 2 : 0; }
+        emit_seq(u, v, {0, 0, 0}, {s, s, s}, {da, db, da});
+      }
+    }
+  }
+}
+
+// ---- TO: call sequences on one object
+static void emit_obj(const std::vector<ll> &u, const std::vector<ll> &v, const std::vector<ll> &s, const std::vector<ll> &d, const std::vector<int> &ops) {
+  printf("TO %zu %zu %zu", u.size(), v.size(), ops.size());
+  for (ll x : u) printf(" %lld", x); for (ll x : v) printf(" %lld", x);
+  for (ll x : s) printf(" %lld", x); for (ll x : d) printf(" %lld", x);
+  for (int o : ops) printf(" %d", o);
+  printf("\n");
+}
+static const std::vector<std::vector<int>> OBJ_PATTERNS = {
+  {0, 2, 0, 1}, {1, 2, 3}, {3, 2, 3}, {2, 3, 3}, {0, 0, 2, 2, 1, 0}, {3, 3}, {1, 0, 2, 1, 0}, {2, 0, 2, 1}};
+static void gen_obj(unsigned long long seed, long long count) {
+  SplitMix g(seed);
+  for (long long it = 0; it < count; ++it) {
+    int n = (int)g.uni(1, g.coin(70) ? 5 : 20), m = (int)g.uni(1, g.coin(70) ? 5 : 12);
+    ll range = g.coin(60) ? g.uni(1, 12) : g.coin(50) ? g.uni(20, 1000) : 100000000LL;
+    ll smax = g.uni(1, 6), dmax = g.uni(1, 6);
+    std::vector<ll> u(n), v(m), s(n), d(m);
+    for (auto &x : u) x = g.uni(0, range); for (auto &x : v) x = g.uni(0, range);
+    if (g.coin(15)) for (int j = 1; j < m; ++j) if (g.coin(40)) v[j] = v[j - 1];
+    int zd = (int)g.uni(0, 3) * 20, zs = g.coin(30) ? 25 : 0;
+    for (auto &x : s) x = g.coin(zs) ? 0 : g.uni(1, smax);
+    for (auto &x : d) x = g.coin(zd) ? 0 : g.uni(1, dmax);
+    ll ts = 0, td = 0; for (ll x : s) ts += x; for (ll x : d) td += x;
+    int mode = (int)g.uni(0, 9);     // 0-5: as drawn (about half: supply > demand, the first solve()/assign() is refused); 6-7 exact; 8-9 slack
+    if (mode >= 6 && ts > td) d[g.uni(0, m - 1)] += ts - td + (mode >= 8 ? g.uni(1, 4) : 0);
+    if (mode <= 5 && ts <= td && g.coin(60)) s[g.uni(0, n - 1)] += td - ts + g.uni(1, 2 * m + 2);   // missing >= nbSinks now and then
+    std::vector<int> ops;
+    if (g.coin(50)) ops = OBJ_PATTERNS[g.uni(0, (ll)OBJ_PATTERNS.size() - 1)];
+    else { int k = (int)g.uni(2, 6); for (int r = 0; r < k; ++r) ops.push_back((int)g.uni(0, 3)); }
+    emit_obj(u, v, s, d, ops);
+  }
+}
+// every instance with 1..2 sources, 1..3 sinks, positions 0..1, supplies 0..2, demands 0..2 under the first three call patterns
+static void gen_objsmall(bool full) {
+  for (int n = 1; n <= 2; ++n) for (int m = 1; m <= 3; ++m) {
+    if (!full && n * m == 6) continue;
+    std::vector<ll> u(n, 0), v(m, 0), s(n, 0), d(m, 0);
+    std::vector<ll *> dig; std::vector<int> hi;
+    for (auto &x : u) { dig.push_back(&x); hi.push_back(1); } for (auto &x : v) { dig.push_back(&x); hi.push_back(1); }
+    for (auto &x : s) { dig.push_back(&x); hi.push_back(2); } for (auto &x : d) { dig.push_back(&x); hi.push_back(2); }
+    long long cnt = 0;
+    while (true) {
+      emit_obj(u, v, s, d, OBJ_PATTERNS[cnt++ % 3]);
+      int p = dig.size() - 1; while (p >= 0 && ++*dig[p] > hi[p]) { *dig[p] = 0; --p; }
+      if (p < 0) break;
+    }
+  }
+}
+
 // one case -> one result line (without the trailing newline); *restart is set when the result of assign() does not even
 // have the shape of an assignment (wrong length): the heap may be damaged, the worker is replaced
 static std::string run_case(const std::string &line, bool *restart) {
@@ -134,6 +259,75 @@ static std::string run_case(const std::string &line, bool *restart) {
   return out;
 }
 
+static std::string part_D(const std::vector<ll> &d) { std::string o = "D"; char buf[64]; for (ll y : d) { snprintf(buf, 64, " %lld", y); o += buf; } return o; }
+static std::string part_S(Transportation1d &q) {
+  char buf[64];
+  try { auto sol = q.solve(); std::string o = " | S"; bool first = true;
+    for (auto [i, j, a] : sol) { snprintf(buf, 64, "%s%d %d %lld", first ? " " : ";", i, j, a); o += buf; first = false; }
+    return o;
+  } catch (std::exception &ex) { return std::string(" | THROW ") + ex.what(); }
+}
+static std::string part_A(Transportation1d &q, int n, bool *restart) {
+  char buf[64];
+  try { auto a = q.assign(); std::string o = " | A"; for (int y : a) { snprintf(buf, 64, " %d", y); o += buf; }
+    if ((int)a.size() != n) *restart = true;
+    return o;
+  } catch (std::exception &ex) { return std::string(" | THROW ") + ex.what(); }
+}
+static std::string part_O(const std::vector<ll> &u, const std::vector<ll> &v, const std::vector<ll> &s, const std::vector<ll> &d2) {
+  ll ts = 0; for (ll y : s) ts += y; char buf[64];
+  ll oc; bool neg = false; for (ll y : s) if (y < 0) neg = true; for (ll y : d2) if (y < 0) neg = true;
+  if (!neg && (ll)u.size() * (ll)v.size() <= 64 && ts <= 4000 && mcf(u, v, s, d2, oc)) { snprintf(buf, 64, " | O %lld", oc); return buf; }
+  return " | O -";
+}
+
+// TS: k problems on shared positions, one after the other
+static std::string run_seq(const std::string &line, bool *restart) {
+  auto x = vh_ints(line.substr(3)); size_t p = 0;
+  auto nx = [&]() -> ll { return p < x.size() ? x[p++] : 0; };
+  int n = nx(), m = nx(), k = nx();
+  if (n < 0 || m < 0 || k < 0 || (size_t)(3 + n + m + (size_t)k * (1 + n + m)) != x.size()) return "?FORMAT";
+  std::string hd; char buf[64];
+  for (int i = 0; i < n + m; ++i) { snprintf(buf, 64, " %lld", nx()); hd += buf; }
+  std::string out;
+  for (int r = 0; r < k; ++r) {
+    int bal = nx(); std::string t1; snprintf(buf, 64, "T1 %d %d %d", bal, n, m); t1 = buf; t1 += hd;
+    for (int i = 0; i < n + m; ++i) { snprintf(buf, 64, " %lld", nx()); t1 += buf; }
+    out += (r ? " || " : "") + run_case(t1, restart);
+  }
+  return out;
+}
+
+// TO: call sequences on one object
+static std::string run_obj(const std::string &line, bool *restart) {
+  auto x = vh_ints(line.substr(3)); size_t p = 0;
+  auto nx = [&]() -> ll { return p < x.size() ? x[p++] : 0; };
+  int n = nx(), m = nx(), k = nx();
+  if (n < 0 || m < 0 || k < 0 || (size_t)(3 + 2 * n + 2 * m + k) != x.size()) return "?FORMAT";
+  std::vector<ll> u(n), v(m), s(n), d(m);
+  for (auto &y : u) y = nx(); for (auto &y : v) y = nx(); for (auto &y : s) y = nx(); for (auto &y : d) y = nx();
+  Transportation1d pb(u, v, s, d);
+  std::string out;
+  for (int r = 0; r < k; ++r) {
+    int op = nx();
+    std::vector<ll> before = pb.sinkDemand();
+    std::string oS, oA, oD; bool threwD = false;
+    if (op == 2) { try { pb.balanceDemand(); } catch (std::exception &ex) { threwD = true; oD = std::string("THROW ") + ex.what(); } }
+    if (op == 0 || op == 3) oS = part_S(pb);
+    if (op == 1 || op == 3) oA = part_A(pb, n, restart);
+    std::vector<ll> cur = pb.sinkDemand();
+    if (!threwD) oD = part_D(cur);
+    std::string fS, fA;
+    { Transportation1d q(u, v, s, cur); fS = part_S(q); }
+    { Transportation1d q(u, v, s, cur); fA = part_A(q, n, restart); }
+    std::string oo = part_O(u, v, s, cur);
+    char buf[32]; snprintf(buf, 32, "%d #", op);
+    out += (r ? " || " : "") + std::string(buf) + part_D(before).substr(1) + " # " + oD + (oS.empty() ? fS : oS) + (oA.empty() ? fA : oA) + oo
+           + " # " + part_D(cur) + fS + fA + oo;
+  }
+  return out;
+}
+
 #include <poll.h>
 #include <sys/wait.h>
 #include <unistd.h>
@@ -141,13 +335,18 @@ int main(int argc, char **argv) {
   std::string mode = argc > 1 ? argv[1] : "run";
   if (mode == "gen" && argc > 2 && std::string(argv[2]) == "small") { gen_small(atoi(argv[3]), atoi(argv[4]), atoi(argv[5]), atoi(argv[6]), atoi(argv[7])); return 0; }
   if (mode == "gen" && argc > 2 && std::string(argv[2]) == "rand") { gen_rand(strtoull(argv[3], nullptr, 10), atoll(argv[4])); return 0; }
+  if (mode == "gen" && argc > 2 && std::string(argv[2]) == "seq") { gen_seq(strtoull(argv[3], nullptr, 10), atoll(argv[4])); return 0; }
+  if (mode == "gen" && argc > 2 && std::string(argv[2]) == "seqsmall") { gen_seqsmall(argc > 3 && atoi(argv[3])); return 0; }
+  if (mode == "gen" && argc > 2 && std::string(argv[2]) == "obj") { gen_obj(strtoull(argv[3], nullptr, 10), atoll(argv[4])); return 0; }
+  if (mode == "gen" && argc > 2 && std::string(argv[2]) == "objsmall") { gen_objsmall(argc > 3 && atoi(argv[3])); return 0; }
   // run: a forked worker handles the cases; when it dies (signal, sanitizer report), hangs (> 20 s on one case) or asks to be
-  // replaced, the parent writes "DIED ..." for the case in hand and a new worker continues with the next case
+  // replaced, the parent writes "DIED ..." for the case in hand and a new worker continues with the next case (after 3 hangs the
+  // rest is SKIPPED)
   std::vector<std::string> lines; std::string line;
   while (std::getline(std::cin, line)) lines.push_back(line);
-  size_t idx = 0; int deaths = 0, restarts = 0;
+  size_t idx = 0; int deaths = 0, restarts = 0, hangs = 0;
   while (idx < lines.size()) {
-    if (deaths >= 30 || restarts >= 3000) {   // a broken tree: enough failing cases were shown, do not spend hours on crash reports
+    if (deaths >= 30 || restarts >= 3000 || hangs >= 3) {   // a broken tree: enough failing cases were shown, do not spend hours on crash reports
       for (; idx < lines.size(); ++idx) printf("SKIPPED too many crashes\n");
       break;
     }
@@ -159,7 +358,8 @@ int main(int argc, char **argv) {
       close(fd[0]);
       for (size_t k = idx; k < lines.size(); ++k) {
         bool restart = false;
-        std::string r = lines[k].size() < 3 ? std::string("") : run_case(lines[k], &restart);
+        std::string r = lines[k].size() < 3 ? std::string("") : lines[k].compare(0, 3, "TS ") == 0 ? run_seq(lines[k], &restart)
+                        : lines[k].compare(0, 3, "TO ") == 0 ? run_obj(lines[k], &restart) : run_case(lines[k], &restart);
         r += "\n"; fwrite(r.data(), 1, r.size(), stdout); fflush(stdout);
         char c = restart ? 'R' : '.'; if (write(fd[1], &c, 1) != 1) _exit(3);
         if (restart) _exit(0);
@@ -170,8 +370,11 @@ int main(int argc, char **argv) {
     size_t done = 0; bool hung = false;
     while (true) {
       struct pollfd pf = {fd[0], POLLIN, 0};
-      int pr = poll(&pf, 1, 20000);
-      if (pr == 0) { hung = true; kill(pid, SIGKILL); break; }
+      // CPU limit of one case: 20 s (6 s for the call sequences on one object, whose problems have at most 20 x 12 entries)
+      size_t cur = idx + done;
+      int limit = cur < lines.size() && lines[cur].compare(0, 3, "TO ") == 0 ? 6000 : 20000;
+      int pr = poll(&pf, 1, limit);
+      if (pr == 0) { hung = true; ++hangs; kill(pid, SIGKILL); break; }
       char buf[4096]; ssize_t got = read(fd[0], buf, sizeof buf);
       if (got <= 0) break;
       done += got;
